@@ -66,7 +66,32 @@ func rtmpFactsWriter(p *pkgInfo, w *bytes.Buffer) error {
 	if wm == nil {
 		return fmt.Errorf("func (*Protocol) WriteMessage")
 	}
-	follows := firstPos(wm.Body, func(n ast.Node) bool {
+	// WriteMessage together with the methods of Protocol it calls (the update may sit in a helper such as
+	// onMessageWriten): all their bodies are searched
+	bodies := []ast.Node{wm.Body}
+	seen := map[string]bool{"WriteMessage": true}
+	for i := 0; i < len(bodies) && i < 8; i++ {
+		ast.Inspect(bodies[i], func(n ast.Node) bool {
+			if ce, ok := n.(*ast.CallExpr); ok {
+				if se, ok := ce.Fun.(*ast.SelectorExpr); ok && !seen[se.Sel.Name] {
+					if callee := p.funcDecl("Protocol", se.Sel.Name); callee != nil {
+						seen[se.Sel.Name] = true
+						bodies = append(bodies, callee.Body)
+					}
+				}
+			}
+			return true
+		})
+	}
+	anyBody := func(pred func(ast.Node) bool) bool {
+		for _, b := range bodies {
+			if firstPos(b, pred) != token.NoPos {
+				return true
+			}
+		}
+		return false
+	}
+	follows := anyBody(func(n ast.Node) bool {
 		as, ok := n.(*ast.AssignStmt)
 		if !ok {
 			return false
@@ -77,12 +102,21 @@ func rtmpFactsWriter(p *pkgInfo, w *bytes.Buffer) error {
 			}
 		}
 		return false
-	}) != token.NoPos
+	})
 	// it must also be guarded by the message type being Set Chunk Size
-	guarded := firstPos(wm.Body, func(n ast.Node) bool {
+	guarded := anyBody(func(n ast.Node) bool {
+		// `== MessageTypeSetChunkSize` around the update, `!= MessageTypeSetChunkSize` with an early return before
+		// it, or a switch arm for it
+		if cc, ok := n.(*ast.CaseClause); ok {
+			for _, e := range cc.List {
+				if selString(e) == "MessageTypeSetChunkSize" {
+					return true
+				}
+			}
+		}
 		be, ok := n.(*ast.BinaryExpr)
-		return ok && be.Op == token.EQL && (selString(be.Y) == "MessageTypeSetChunkSize" || selString(be.X) == "MessageTypeSetChunkSize")
-	}) != token.NoPos
+		return ok && (be.Op == token.EQL || be.Op == token.NEQ) && (selString(be.Y) == "MessageTypeSetChunkSize" || selString(be.X) == "MessageTypeSetChunkSize")
+	})
 	fmt.Fprintf(w, "/-- `WriteMessage` assigns `output.opt.chunkSize` (%v) under a `== MessageTypeSetChunkSize` test (%v). -/\ndef writerFollowsOwnSetChunkSize : Bool := %v\n",
 		follows, guarded, follows && guarded)
 	return nil
